@@ -367,102 +367,85 @@ def judge_handout(rec, prog, info):
     return None
 
 
+def _amend_like(op, price):
+    if op.startswith("UPD UQ:"):
+        return True
+    if op.startswith("UPD UPQ:") or op.startswith("UPD RP:"):
+        return int(op.split(":")[2]) == price
+    return False
+
+
+def _target(op):
+    return op.split(":")[1] if op.startswith("UPD ") else None
+
+
 def judge_ack(rec, prog, info):
     """C13.  Returns (violation text or None, known-finding text or None)."""
-    steps = info.get("steps", [])
-    # position of every step in the global order, and map contents before each step
     _, vec0 = setup_facts(prog, rec)
-    # rebuild the global sequence with call boundaries
-    seq = []      # ("B"/"R"/"S", payload)
-    for tag, rest in rec["ev"]:
-        if tag in ("B", "R", "S"):
-            seq.append((tag, rest))
+    price = prog["price"]
     in_map = {gen.parse_order(o)["id"] for o in vec0}
-    held = {}     # id -> tid currently holding it out of the map (matcher / amender), from REM until INS or drop
-    holder_of = {}
-    open_calls = {}
+    held = {}          # id -> thread holding it out of the map, intending to put it back (matcher / amender)
+    last_rem = {}      # thread -> id of the order it most recently took out and has not re-inserted
+    open_op = {}       # thread -> op text of the call in progress
+    watch = {}         # thread -> facts about its cancel/amend call in progress
+    cancelled = set()  # ids taken out for good by a cancel / price move and not added again
     viol, known = None, None
-    traded_after_cancel = set()
-    cancelled = {}   # id -> True once a cancel succeeded, until re-added
-    pending_nf = {}  # (tid) -> dict(id, resting_at_begin, removed_by_other, held_at_some_point)
-    for tag, rest in seq:
+    for tag, rest in rec["ev"]:
         if tag == "B":
-            tid, ci, op = rest.split(" ", 2)
+            tid, _, op = rest.split(" ", 2)
             tid = int(tid)
-            open_calls[tid] = op
-            if op.startswith("UPD C:") or op.startswith("UPD UQ:"):
-                k = op.split(":")[1]
-                pending_nf[tid] = dict(id=k, resting=(k in in_map or k in held), held=(k in held),
-                                       removed=False, op=op)
+            open_op[tid] = op
+            k = _target(op)
+            if k is not None and (op.startswith("UPD C:") or _amend_like(op, price)):
+                other = k in held and held[k] != tid
+                watch[tid] = dict(id=k, resting=(k in in_map or other), held=other, removed=False, op=op)
         elif tag == "S":
             tid, ev = rest.split(" ", 1)
             tid = int(tid)
-            op = open_calls.get(tid, "")
+            op = open_op.get(tid, "")
             if ev.startswith("REM ") and not ev.endswith(" -"):
                 k = ev.split(" ")[1]
                 in_map.discard(k)
-                if op.startswith("MATCH") or op.startswith("UPD UQ") or (op.startswith("UPD") and False):
+                if op.startswith("MATCH") or _amend_like(op, price):
                     held[k] = tid
+                    last_rem[tid] = k
                 else:
-                    # a cancel / price move took it for good
-                    cancelled[k] = True
-                    for t2, p in pending_nf.items():
-                        if p["id"] == k and t2 != tid:
-                            p["removed"] = True
+                    cancelled.add(k)
+                    for t2, w in watch.items():
+                        if t2 != tid and w["id"] == k:
+                            w["removed"] = True
             elif ev.startswith("INS "):
                 k = gen.parse_order(ev[4:])["id"]
+                if k in cancelled:
+                    if op.startswith("ADD "):
+                        cancelled.discard(k)
+                    else:
+                        viol = viol or ("order %s was inserted again by `%s` after a cancel had reported success" % (k, op))
                 in_map.add(k)
                 if held.get(k) == tid:
                     del held[k]
-                if op.startswith("ADD "):
-                    cancelled.pop(k, None)
+                if last_rem.get(tid) == k:
+                    del last_rem[tid]
             elif ev.startswith("FS:cnt:") and op.startswith("MATCH"):
-                # the matcher dropped the order it held
-                for k, t in list(held.items()):
-                    if t == tid:
-                        del held[k]
-                        for t2, p in pending_nf.items():
-                            if p["id"] == k:
-                                p["removed"] = True
-            for t2, p in pending_nf.items():
-                if p["id"] in held and held[p["id"]] != t2:
-                    p["held"] = True
+                k = last_rem.pop(tid, None)       # the matcher drops the filled order it holds
+                if k is not None:
+                    held.pop(k, None)
+                    for t2, w in watch.items():
+                        if w["id"] == k:
+                            w["removed"] = True
+            for t2, w in watch.items():
+                if w["id"] in held and held[w["id"]] != t2:
+                    w["held"] = True
         elif tag == "R":
-            tid, ci, r = rest.split(" ", 2)
+            tid, _, r = rest.split(" ", 2)
             tid = int(tid)
-            op = open_calls.pop(tid, "")
-            p = pending_nf.pop(tid, None)
-            if p and r == "upd:ok:-":
-                if p["resting"] and not p["removed"]:
-                    if p["held"]:
-                        known = ("K4 %s reports not-found while another operation holds order %s between taking it "
-                                 "out and putting it back" % (p["op"], p["id"]))
-                    else:
-                        viol = "%s reports not-found although order %s was resting before the call and nothing removed it" % (p["op"], p["id"])
-            if r.startswith("match:"):
-                d = kv(r[6:].replace(";", " "))
-                for t in gen.parse_list(d["txs"]):
-                    mk = t.split("/")[2]
-                    # a transaction recorded after a successful cancel of the same incarnation
-                    # (the matcher must have taken it before the cancel; then the cancel cannot have succeeded)
-    # success clause: an id removed by a cancel is never inserted again except by an ADD call
-    removed_by_cancel = set()
-    for tag, rest in seq:
-        if tag == "B":
-            tid, ci, op = rest.split(" ", 2)
-            open_calls[int(tid)] = op
-        elif tag == "S":
-            tid, ev = rest.split(" ", 1)
-            op = open_calls.get(int(tid), "")
-            if ev.startswith("REM ") and not ev.endswith(" -") and (op.startswith("UPD C:") or op.startswith("UPD UP")):
-                removed_by_cancel.add(ev.split(" ")[1])
-            elif ev.startswith("INS "):
-                k = gen.parse_order(ev[4:])["id"]
-                if k in removed_by_cancel:
-                    if op.startswith("ADD "):
-                        removed_by_cancel.discard(k)
-                    else:
-                        viol = viol or "order %s re-inserted by %s after a cancel reported success" % (k, op)
-            elif ev.startswith("REM ") and not ev.endswith(" -"):
-                pass
+            open_op.pop(tid, None)
+            w = watch.pop(tid, None)
+            if w and r == "upd:ok:-" and w["resting"] and not w["removed"]:
+                if w["held"]:
+                    known = ("K4 `%s` reports not-found while another operation holds order %s between taking it out "
+                             "of the book and putting the remainder back" % (w["op"], w["id"]))
+                else:
+                    viol = viol or ("`%s` reports not-found although order %s was resting before the call began and nothing removed it"
+                                    % (w["op"], w["id"]))
     return viol, known
